@@ -493,6 +493,7 @@ impl<'a, DB: DatabaseRef> ParallelStateView<'a, DB> {
             return Ok(account);
         }
         let info = self.with_metrics(|| self.database.basic_ref(address))?;
+        vpoint!(DB_FILL_BASIC);
         let account = match info {
             None => CacheAccountInfo::new(None, AccountStatus::LoadedNotExisting),
             Some(acc) if acc.is_empty() => CacheAccountInfo::new(
@@ -529,6 +530,7 @@ impl<'a, DB: DatabaseRef> ParallelStateView<'a, DB> {
             return Ok(account.account.clone());
         }
         let info = self.with_metrics(|| self.database.basic_ref(address))?;
+        vpoint!(DB_FILL_BASIC);
         let account = match info {
             None => CacheAccountInfo::new(None, AccountStatus::LoadedNotExisting),
             Some(acc) if acc.is_empty() => CacheAccountInfo::new(
@@ -548,6 +550,7 @@ impl<'a, DB: DatabaseRef> ParallelStateView<'a, DB> {
             return Ok(code.value().clone());
         }
         let code = self.with_metrics(|| self.database.code_by_hash_ref(code_hash))?;
+        vpoint!(DB_FILL_CODE);
         match self.cache.contracts.entry(code_hash) {
             Entry::Occupied(entry) => Ok(entry.get().clone()),
             Entry::Vacant(entry) => {
@@ -575,6 +578,7 @@ impl<'a, DB: DatabaseRef> ParallelStateView<'a, DB> {
         } else {
             self.with_metrics(|| self.database.storage_ref(address, index))?
         };
+        vpoint!(DB_FILL_STORAGE);
         let value = if let Some(slots) = self.cache.storage.get(&address) {
             *slots.entry(index).or_insert(value).value()
         } else {
